@@ -28,8 +28,10 @@ EXPLANATION = (
     "the heteronuclear parameter is clipped on both sides below 1/2; (R4) in both multi-sector routes "
     "iteration K updates weights[pt_ind[K]:pt_ind[K+1]] with atom select[K] (value graphs in K); (R5) "
     "Hirshfeld share; (R6) index-space inference: no per-atom array is addressed with the counter "
-    "of an enumerated selection or a doubly applied permutation.  NOT decided: weights in "
-    "[0,1], sum to one, nuclear values, invariances, Hirshfeld ratio (numerical).")
+    "of an enumerated selection or a doubly applied permutation; (R7/R8) BeckeWeights evaluated over symbolic points and "
+    "nuclei with the switching polynomial and alpha uninterpreted: every weight is P_a / sum_b P_b, the weights of all atoms "
+    "add up to 1 identically, the chunked callable gives every point the weight of its own atom.  NOT decided: weights in "
+    "[0,1], nuclear values, invariances, Hirshfeld ratio (numerical).")
 RULE = "2 pipeline pairs (product, normalised selection), chunk-table obligations, clip obligations, segment-loop pairing"
 
 
@@ -554,5 +556,9 @@ def run(tier="quick", root="/repo", evidence_dir=None, quiet=False):
     # R6: per-atom quantities (radii, pro-atoms, segments) are addressed in the index space of the atoms
     from gridlint import e9
     rep.attempt(e9.rule_index_spaces, rep, repo, ("becke", "hirshfeld"), "R6.index-space", 2)
+    # R7 / R8: the weights are the normalised cell functions (switch and alpha uninterpreted); own atom per segment
+    from gridlint import becke_unity
+    rep.attempt(becke_unity.rule_unity, rep, repo)
+    rep.attempt(becke_unity.rule_call, rep, repo)
     rep.extra["source_digest"] = repo.digest(["becke", "hirshfeld"])
     return rep.finish(evidence_dir=evidence_dir, quiet=quiet)
